@@ -190,6 +190,23 @@ CLAIMED["C08"] = dict(
     technique="TLA+ spec (Bounds: Tight, Join, Overlap) + TLC exhaustive enumeration of Extend histories, collection "
               "trees and box pairs; trace/observation checking by TLC")
 
+CLAIMED["C19"] = dict(
+    text="Model checking: the IGC specification has (1) a line-level model of the decoder whose state mirrors "
+         "decode.go (A seen, date, last instant, announced B length, extension ranges) with every column the decoder "
+         "indexes accounted for (invariant NoIndexOutOfRange), and (2) the format the encoder must write (A record, "
+         "date header on every new UTC day, truncated milli-minutes, hemisphere letters, clamped altitude) with the "
+         "round-trip statement; TLC checks on the model that the decoder applied to the prescribed format returns "
+         "every instant for 1970..2069 (two-digit-year window, leap days, midnight, 1999/2000). It enumerates every "
+         "sequence of up to 4 records over 22 line kinds (contiguous / gapped / reversed / over-announced I tables, "
+         "short and long B records, malformed and boundary date headers, records before A) and every non-decreasing "
+         "track of up to 3 fixes over palettes incl. the poles, the antimeridian and out-of-range altitudes; the "
+         "real igc.Read / Encoder are run on all of them plus seeded mutations of sample files, and TLC decides fix "
+         "count, error count, instants, positions within 1/60000 degree, clamped altitudes, whole fixes, no panic.",
+    ref="DESIGN.md 3.6, 4-C19", note="Bounded: line alphabet, sequence and track length. Byte-stream mutations are "
+                                     "decided for totality and whole fixes only. Trusted base: " + TB,
+    technique="TLA+ spec (IGC: decoder line model + encoder format) + TLC exhaustive enumeration of record sequences "
+              "and tracks; observation checking by TLC")
+
 NOT_YET = {}
 
 
